@@ -19,6 +19,7 @@ type Feat struct {
 	Decorators     bool
 	GroupDecs      bool
 	Variadic       bool
+	PVariadic      float64
 	Callbacks      bool
 	Info           bool
 	NamedSlice     bool
@@ -309,7 +310,7 @@ func (g *genCtx) genCtor(s int) *Func {
 		np = g.r.Intn(4)
 	}
 	f.Params = g.encodeParams(g.pickParamKeys(s, maxT, np, false), RoleCtor)
-	f.Variadic = ft.Variadic && g.r.P(0.1)
+	f.Variadic = ft.Variadic && g.r.P(ft.PVariadic)
 	f.Callback = ft.Callbacks && g.r.P(0.5)
 	return f
 }
@@ -322,7 +323,7 @@ func (g *genCtx) genInvoke(s int) *Func {
 	}
 	f.Params = g.encodeParams(g.pickParamKeys(s, g.ft.NT, n, true), RoleInv)
 	f.HasErr = g.r.P(0.5)
-	f.Variadic = g.ft.Variadic && g.r.P(0.1)
+	f.Variadic = g.ft.Variadic && g.r.P(g.ft.PVariadic)
 	return f
 }
 
@@ -405,6 +406,19 @@ func (g *genCtx) genDecorator(s int) *Func {
 		f.ErrAt = g.r.Range(1, len(f.Results)-1)
 	}
 	f.Callback = g.ft.Callbacks && g.r.P(0.5)
+	f.Variadic = g.ft.Variadic && g.r.P(g.ft.PVariadic)
+	if g.r.P(g.ft.PReenter) {
+		// body asks its own scope for the first key it decorates; only when it
+		// also takes that key as input (otherwise the nested request would
+		// legitimately build what the decorator hides)
+		if lr := f.LeafResults(); len(lr) > 0 {
+			for _, p := range f.LeafParams() {
+				if p.Key == lr[0].Keys[0] {
+					f.Reenter = true
+				}
+			}
+		}
+	}
 	return f
 }
 
@@ -673,6 +687,7 @@ func BaseFeat(r *Rng, thorough bool) Feat {
 	ft.Decorators = r.P(0.6)
 	ft.GroupDecs = r.P(0.5)
 	ft.Variadic = r.P(0.3)
+	ft.PVariadic = []float64{0.1, 0.1, 0.4}[r.Intn(3)]
 	ft.Info = r.P(0.3)
 	ft.PErrFirst = []float64{0, 0.15, 0.3}[r.Intn(3)]
 	return ft
@@ -856,4 +871,69 @@ func (g *genCtx) tmplDescendantCycleGroup() {
 		f.Params = []Param{{Kind: PObj, Fields: []Param{{Kind: PGroup, T: m, Group: grp}}}}
 		g.addOp(Op{Kind: OpInvoke, Scope: s, Fn: f.ID, Tag: "desc-cycle-group"})
 	}
+}
+
+// keyParam / keyResult express a single key as a parameter / decorator result.
+func keyParam(k Key) Param {
+	if k.Name != "" {
+		return Param{Kind: PObj, Fields: []Param{{Kind: PSingle, T: k.T, Name: k.Name}}}
+	}
+	return Param{Kind: PSingle, T: k.T}
+}
+
+func keyResult(k Key) Result {
+	if k.Name != "" {
+		return Result{Kind: RObj, Fields: []Result{{Kind: RSingle, T: k.T, Name: k.Name}}}
+	}
+	return Result{Kind: RSingle, T: k.T}
+}
+
+// tmplDecorateFirst: "every order of Decorate relative to Provide" -- a
+// decorator is registered for a key that nobody provides yet; the provider
+// arrives afterwards (in the same scope, an ancestor, or exported from
+// elsewhere), possibly after other registrations; then the key is requested
+// from the decorator's scope or below.
+func (g *genCtx) tmplDecorateFirst() {
+	s := g.pickScope()
+	var k Key
+	found := false
+	for try := 0; try < 8 && !found; try++ {
+		k = Key{T: g.r.Intn(g.ft.NT), Name: g.name()}
+		found = len(g.m.AllProv(s, k)) == 0 && g.m.S[s].Dec[k] == nil
+	}
+	if !found {
+		return
+	}
+	d := g.newFunc(RoleDec)
+	d.Params = []Param{keyParam(k)}
+	d.Results = []Result{keyResult(k)}
+	d.HasErr = g.r.P(0.5)
+	d.Callback = g.ft.Callbacks && g.r.P(0.5)
+	i := g.addOp(Op{Kind: OpDecorate, Scope: s, Fn: d.ID, Tag: "decorate-first"})
+	if g.m.PredictDecorate(s, d) == PredOK {
+		g.m.AddDec(s, i, d)
+	}
+	for n := g.r.Intn(3); n > 0; n-- {
+		g.opProvide(g.pickScope())
+	}
+	// the provider: same scope, an ancestor, or exported from anywhere
+	path := g.m.Path(s)
+	ps := path[g.r.Intn(len(path))]
+	f := g.newFunc(RoleCtor)
+	f.Results = []Result{{Kind: RSingle, T: k.T}}
+	f.OptName = k.Name
+	f.HasErr = g.r.P(0.5)
+	if g.ft.Export && len(g.m.S) > 1 && g.r.P(0.25) {
+		ps = 1 + g.r.Intn(len(g.m.S)-1)
+		f.Export = true
+	}
+	i = g.addOp(Op{Kind: OpProvide, Scope: ps, Fn: f.ID, Tag: "decorate-first"})
+	if g.m.PredictProvide(ps, f) == PredOK {
+		g.m.AddCtor(ps, i, f)
+	}
+	// request it from the decorator's scope or below
+	sub := g.m.Subtree(s)
+	inv := g.newFunc(RoleInv)
+	inv.Params = []Param{keyParam(k)}
+	g.addOp(Op{Kind: OpInvoke, Scope: sub[g.r.Intn(len(sub))], Fn: inv.ID, Tag: "decorate-first"})
 }
